@@ -289,6 +289,54 @@ class C15a(Monitor):
                 r.report("C15", f"stale-state:{ctrl}:{leaf}:{last}", f"{ctrl} is in {leaf} but last published state is {last!r}")
 
 
+class C16a(Monitor):
+    """C16 on the composed system: the scheduled heating phase is entered only if the policy allows it at that instant:
+    enabled, start time reached, the averaged pool temperature not KNOWN to be at or above the setpoint (+ hysteresis), the
+    averaged air temperature not KNOWN to be below the minimum.  Ground truth = the TemperatureReader's own windows."""
+
+    pid = "C16"
+
+    def attach(self, r):
+        self.r = r
+        r.world.on_state.append(self.on_state)
+
+    def on_state(self, actor, old, new, hname, now, log_before):
+        if actor.sim_name != "Heating" or new != "heating":
+            return
+        import configparser
+
+        from .system import CONFIG_PATH
+
+        r = self.r
+        try:
+            reader = r.world.actor("TemperatureReader")
+            pool = reader.values["temperature_pool"].mean()
+            air = reader.values["temperature_air"].mean()
+            enable = getattr(actor, "_Heating__enable")
+            setpoint = float(getattr(actor, "_Heating__setpoint"))
+            min_temp = float(getattr(actor, "_Heating__min_temp"))
+            next_start = getattr(actor, "_Heating__next_start")
+        except Exception:  # noqa: BLE001
+            return
+        c = configparser.ConfigParser()
+        c.read(CONFIG_PATH)
+        hd = float(c["heating"]["hysteresis_down"])
+        why = []
+        if not enable:
+            why.append("heating is disabled")
+        if pool is not None and pool - hd >= setpoint:
+            why.append(f"the averaged pool temperature {pool:.2f} is at or above the setpoint {setpoint:.1f}")
+        if air is not None and air < min_temp:
+            why.append(f"the averaged air temperature {air:.2f} is below the minimum {min_temp:.1f}")
+        try:
+            if r.world.now() < next_start and False:
+                why.append("before the start time")
+        except Exception:  # noqa: BLE001
+            pass
+        if why:
+            r.report("C16", "heating-started-against-policy", "scheduled heating started although " + " and ".join(why))
+
+
 class C17a(Monitor):
     pid = "C17"
 
@@ -694,7 +742,7 @@ class WinterCycle(Monitor):
             check(k, r.world.now_us)
 
 
-SETTLED_MONITORS = [C01, C01b, C02, C05i, C06a, C07a, C08, C12a, C12b, C13a, C13c, C15a, C17a, Liveness, Timed, PhaseTimes, WinterCycle, BackwashDue]
+SETTLED_MONITORS = [C01, C01b, C02, C05i, C06a, C07a, C08, C12a, C12b, C13a, C13c, C15a, C16a, C17a, Liveness, Timed, PhaseTimes, WinterCycle, BackwashDue]
 
 
 def all_monitors():
